@@ -36,7 +36,31 @@ Proof.
   rewrite Hy in *. rewrite year_start_utc in Ea2. rewrite E2. f_equal. nia.
 Qed.
 
-Definition tf_ok (tf : Z) : Prop := 0 < tf < utils_Day /\ utils_Day mod tf = 0 /\ tf mod NS = 0.
+(** the same for the daily timeframe (index = day of the year, zero based) *)
+Lemma utc_interval_daily t idx :
+  TimeToIndex tz_utc t utils_Day = Ok idx ->
+  let t0 := IndexToTime tz_utc idx utils_Day (year_of tz_utc t) in
+  sec_of t0 * NS = t0 /\
+  forall d, 0 <= d < utils_Day ->
+    year_of tz_utc (t0 + d) = year_of tz_utc t /\ TimeToIndex tz_utc (t0 + d) utils_Day = Ok idx.
+Proof.
+  intros Hidx t0. rewrite TimeToIndex_daily in Hidx. injection Hidx as Hidx.
+  set (L := local_days tz_utc t) in *. set (y := year_of tz_utc t) in *.
+  assert (Ht0 : t0 = L * SPD * NS).
+  { unfold t0. change tz_utc with (tz_fixed 0). rewrite IndexToTime_daily by apply fixed_regular.
+    unfold day_utc. rewrite local_to_utc_fixed. replace (dby y + idx) with L by lia. lia. }
+  assert (Hld : forall d, 0 <= d < utils_Day -> local_days tz_utc (t0 + d) = L).
+  { intros d Hd. unfold local_days, local_secs. change tz_utc with (tz_fixed 0). rewrite offset_at_fixed, Z.add_0_r.
+    unfold sec_of. rewrite Ht0. unfold utils_Day, SPD, NS in *.
+    rewrite Z.div_div by lia. symmetry. apply Z.div_unique with (r := d); lia. }
+  split.
+  - unfold sec_of. rewrite Ht0. rewrite Z.div_mul by (unfold NS; lia). reflexivity.
+  - intros d Hd. specialize (Hld d Hd). split.
+    + unfold year_of. rewrite Hld. reflexivity.
+    + rewrite TimeToIndex_daily. unfold year_of at 1. rewrite Hld. fold L. f_equal. unfold y, year_of, L in *. lia.
+Qed.
+
+Definition tf_ok (tf : Z) : Prop := 0 < tf <= utils_Day /\ utils_Day mod tf = 0 /\ tf mod NS = 0.
 
 (** the write set's (year, index) is what a master computes from some instant *)
 Definition derived_idx (w : ws) : Prop :=
@@ -48,7 +72,11 @@ Lemma derived_interval w :
   sec_of t0 * NS = t0 /\
   forall d, 0 <= d < ws_tf w -> year_of tz_utc (t0 + d) = ws_year w /\ TimeToIndex tz_utc (t0 + d) (ws_tf w) = Ok (ws_idx w).
 Proof.
-  intros (Htf & Hdiv & Hns) (t & Hy & Hi) t0. split.
+  intros (Htf & Hdiv & Hns) (t & Hy & Hi) t0.
+  destruct (Z.eq_dec (ws_tf w) utils_Day) as [Eday|Nday].
+  { subst t0. rewrite Eday in *. rewrite <- Hy. apply utc_interval_daily. exact Hi. }
+  assert (Htf' : 0 < ws_tf w < utils_Day) by lia. clear Htf. rename Htf' into Htf.
+  split.
   - destruct (index_bracket_utc t (ws_tf w) Htf) as (idx' & E & H1 & Br & Ea).
     assert (idx' = ws_idx w) by congruence. subst idx'. rewrite Hy in Ea. fold t0 in Ea.
     rewrite year_start_utc in Ea. unfold sec_of. rewrite Ea.
@@ -375,7 +403,7 @@ Section Facts.
   Lemma tf_okb_spec tf : tf_okb tf = true -> tf_ok tf.
   Proof.
     unfold tf_okb, tf_ok. intros H. repeat (apply andb_prop in H as [H ?]).
-    rewrite Z.ltb_lt in *. rewrite !Z.eqb_eq in *. lia.
+    rewrite Z.ltb_lt in *. rewrite Z.leb_le in *. rewrite !Z.eqb_eq in *. lia.
   Qed.
 
   Lemma idx_okb_spec w : idx_okb w = true -> derived_idx w.
